@@ -745,9 +745,9 @@ pub(crate) fn gen_spec(rng: &mut Rng, lang: &str, locale: &str) -> Spec {
             let mut prefix = |rng: &mut Rng| -> String {
                 match rng.below(10) {
                     0 | 1 => String::new(),
-                    2 => format!("{}!", quote(rng.pick(GHOSTS))),
+                    2 => { let g: &str = *rng.pick(GHOSTS); format!("{}!", quote(g)) }
                     3 => format!("{}!", quote(&sheets[s])),
-                    _ => format!("{}!", quote(rng.pick(&sheets))),
+                    _ => { let g: String = rng.pick(&sheets[..]).clone(); format!("{}!", quote(&g)) }
                 }
             };
             let cell = |rng: &mut Rng| -> String {
